@@ -289,7 +289,7 @@ def check_property(pid, tier, seed):
         # mutation self-test of this property's contracts (tools/selfmut.py on scratch copies): a surviving mutant is a hole in a contract - recorded, not a
         # verdict about the property
         try:
-            owner = {"acc_traditional": "C05", "acc_azimuthal": "C11", "drv_psd": "C17", "dispatch": "C01", "ctor_hvsr": "C12", "instr": "C17"}
+            owner = {"acc_traditional": "C05", "acc_azimuthal": "C11", "drv_psd": "C17", "dispatch": "C01", "ctor_hvsr": "C12", "instr": "C17", "similar": "C12"}
             muts = [m for m in json.load(open(os.path.join(HERE, "tools", "mutants.json"))) if owner.get(m["module"], m["module"]) == pid]
             if muts:
                 tags = sorted({m["module"] for m in muts})
